@@ -12,6 +12,7 @@
    pairwise disjoint).
 """
 import json
+import re
 import os
 import random
 import sys
@@ -242,6 +243,12 @@ def run(ctx):
                         add(meth, L.position_request(meth, uri, [[tok[0], tok[1]], [tok[0], tok[1] + tok[2]]]))
                     else:
                         add(meth, L.position_request(meth, uri, [pl]))
+        # (second seeded round) completion directly behind every `[#` of the document, in both tiers: the array-append
+        # item of an unfinished `t[#` must keep its text edit on the cursor's line wherever the closing bracket is
+        for li, line in enumerate(L.split_lines(text)):
+            for mm in re.finditer(r"\[#", line):
+                add("textDocument/completion", L.position_request("textDocument/completion", uri,
+                                                                  [[li, L.u16len(line[:mm.end()])]]))
         key = "d%d" % di
         # the same document under both client capability settings: a client without multilineTokenSupport (all requests;
         # multi-line tokens arrive as one piece per line) and a client with it (semantic tokens only)
